@@ -217,6 +217,27 @@ def rawarray_groups():
     return G
 
 
+def dlist_groups():
+    S = 'spec/s_dlist.c'
+    src = [('dlist.c', {'normalise': True})]
+    G = []
+    steps = {1: ('__cstl_dlist_insert', 'insert between two distinct neighbours'), 2: ('__cstl_dlist_insert', 'insert into the empty ring (p is the head and its own successor)'),
+             3: ('__cstl_dlist_insert', 'insert after the last node (successor is the head)'), 4: ('__cstl_dlist_erase', 'erase a node with two distinct neighbours'),
+             5: ('__cstl_dlist_erase', 'erase the only node (both neighbours are the head)')}
+    for k, (fn, txt) in steps.items():
+        G.append(Group('dlist.step%d' % k, ['C12'], 'S', S, 'h_step', enforce=None if k == 2 else fn, sources=src, defines=['-DVF_STEP=%d' % k],
+                       what='ring primitive %s: %s; exact relinking, frame = the three nodes and size' % (fn, txt)))
+    for k, (h, txt, unw) in {1: ('h_b_basic', 'push/pop at both ends, insert/erase at every position, reverse, on every list of length 0..5', 16),
+                             2: ('h_b_multi', 'concat/swap over all length pairs, self-concat, clear (+refill), foreach in both directions with every stop position, with and without removal of the visited element', 16),
+                             3: ('h_b_sort', 'sort and find (both directions) for every assignment of keys {0,1,2} to lists of length 0..3 (thorough: 0..4): ordered, stable, permutation', 90)}.items():
+        G.append(Group('dlist.b%d' % k, ['C12'] + (['C15'] if k == 2 else []), 'B', S, h, sources=src, defines=['-DVF_B=%d' % k] + (['-DVF_SORTLEN=3'] if k == 3 else []), unwind=unw,
+                       what='reference-sequence check in both directions after every operation: ' + txt,
+                       scope='lists of length 0..5 (sort: 0..3, keys from {0,1,2}); element pointers concrete', replay=True, timeout=900))
+    G.append(Group('dlist.b3.len4', ['C12'], 'B', S, 'h_b_sort', sources=src, defines=['-DVF_B=3', '-DVF_SORTLEN=4'], unwind=90, tier='thorough',
+                   what='sort and find for every assignment of keys {0,1,2} to lists of length 0..4', scope='lists of length 0..4, keys {0,1,2}', replay=True, timeout=1800, weight=3))
+    return G
+
+
 def all_groups():
     G = []
     G += hash_groups()
@@ -225,4 +246,12 @@ def all_groups():
     G += array_groups()
     G += string_groups()
     G += rawarray_groups()
+    G += dlist_groups()
+    # modules contributed as separate files: vflib/g_<module>.py exposing groups()
+    import glob
+    import importlib
+    import os
+    for f in sorted(glob.glob(os.path.join(os.path.dirname(os.path.abspath(__file__)), 'g_*.py'))):
+        m = importlib.import_module('vflib.' + os.path.basename(f)[:-3])
+        G += m.groups()
     return G
